@@ -459,15 +459,21 @@ func TestC16Push(t *testing.T) {
 		srv.Close()
 		o.Count("gateway", "two runs, second setup fails")
 	}
-	for _, p := range plans {
+	for pi, p := range plans {
 		gw := &gateway{delay: p.delay}
 		srv := httptest.NewServer(gw)
 		settings := envsettings.Settings{}
 		settings.Prometheus.PushGateway = srv.URL
 		var n atomic.Int64
+		// the scenario's own teardown fails in the first plan: the run is a failed one, its
+		// metrics are exported all the same
+		teardownFails := pi == 0
 		cfg := runkit.Config{Mode: "constant", Flags: map[string]string{"rate": "2/100ms", "distribution": "none"}, Ctx: context.Background(), Settings: settings,
 			Opts: options.RunOptions{MaxDuration: p.dur, Concurrency: 10, MaxFailuresRate: 100, IgnoreDropped: true}, Wait: 5 * time.Second,
-			Scenario: func(*f1testing.T) f1testing.RunFn {
+			Scenario: func(st *f1testing.T) f1testing.RunFn {
+				if teardownFails {
+					st.Cleanup(func() { st.Fail() })
+				}
 				return func(t *f1testing.T) {
 					if n.Add(1)%3 == 0 {
 						t.Fail()
